@@ -13,20 +13,24 @@ func main() {
 		fmt.Fprintln(os.Stderr, "usage: gcv <check|verify|dump|expect|selftest|replay> ...")
 		os.Exit(2)
 	}
+	exit := func(rc int) { // os.Exit skips deferred calls: remove the solver scratch directory first
+		cleanupTmp()
+		os.Exit(rc)
+	}
 	defer cleanupTmp()
 	switch os.Args[1] {
 	case "verify":
 		cmdVerify(os.Args[2:])
 	case "check":
-		os.Exit(cmdCheck(os.Args[2:]))
+		exit(cmdCheck(os.Args[2:]))
 	case "expect":
-		os.Exit(cmdExpect(os.Args[2:]))
+		exit(cmdExpect(os.Args[2:]))
 	case "selftest":
-		os.Exit(cmdSelftest(os.Args[2:]))
+		exit(cmdSelftest(os.Args[2:]))
 	case "replay":
-		os.Exit(cmdReplay(os.Args[2:]))
+		exit(cmdReplay(os.Args[2:]))
 	case "mutate":
-		os.Exit(cmdMutate(os.Args[2:]))
+		exit(cmdMutate(os.Args[2:]))
 	default:
 		fmt.Fprintln(os.Stderr, "unknown command", os.Args[1])
 		os.Exit(2)
